@@ -645,9 +645,14 @@ func runCLI(dir string, args []string) (code int, out string, err error) {
 	cmd.Env = []string{"PATH=/usr/bin:/bin", "HOME=" + dir, "NO_COLOR=1"}
 	var buf bytes.Buffer
 	cmd.Stdout, cmd.Stderr = &buf, &buf
-	werr := emit.Watch(cmd)
+	limit := emit.SpinCPU
+	if spinSeen {
+		limit = 3 * time.Second // the verdict was established with the full limit; this is the search for a smaller case
+	}
+	werr := emit.WatchCPU(cmd, limit)
 	switch {
 	case werr == emit.ErrSpinning:
+		spinSeen = true
 		return -1, buf.String(), errSpin
 	case werr == emit.ErrTimeout:
 		fmt.Println("WATCHDOG: the emerge binary did not exit within its wall-clock limit without using the processor; this run is inconclusive")
@@ -662,6 +667,8 @@ func runCLI(dir string, args []string) (code int, out string, err error) {
 }
 
 var errSpin = errors.New("spinning")
+
+var spinSeen bool
 
 func checkCLI(dir string, args []string) (int, error) {
 	code, out, err := runCLI(dir, args)
